@@ -17,3 +17,23 @@ Theorem C11_durable :
      exists line, nth_error lines j = Some line /\ is_prefix_of (fragment (crash_disk lines k c)) line).
 Proof. exact crash_durable. Qed.
 Print Assumptions C11_durable.
+
+(* ---- parser half (corollaries of the C09 theorems, Proofs/CrashParse.v) ---- *)
+Require Import Eliot.Base.Level Eliot.Model.Parser Eliot.Model.Forest Eliot.Proofs.ParserSpec Eliot.Proofs.CrashParse.
+
+(* every prefix of the emitted messages of any forest (what C11_durable leaves on disk) parses without error *)
+Theorem C11_prefix_parses :
+  forall (f : forest) (j : nat), exists r, parse_loop [] (firstn j (lin f)) [] = POk r.
+Proof. exact prefix_parses. Qed.
+Print Assumptions C11_prefix_parses.
+
+(* ... and no task is reported complete while one of its messages is missing; what remains is incomplete *)
+Theorem C11_no_false_complete :
+  forall (f : forest) (j : nat),
+  exists cs p,
+    parse_trace [] (firstn j (lin f)) = POk (cs, p) /\
+    (forall i m c, nth_error (firstn j (lin f)) i = Some m -> nth_error cs i = Some c ->
+       ~ all_received f (pm_uuid m) (firstn (S i) (firstn j (lin f))) -> c = []) /\
+    (forall u t, ulookup u p = Some t -> task_complete t = false).
+Proof. exact prefix_no_false_complete. Qed.
+Print Assumptions C11_no_false_complete.
